@@ -192,7 +192,7 @@ def recognise_real_lin(x):
     if abs(float(f) - x) < 1e-14 * max(1, abs(x)):
         return Fr(0), f
     g = Fr(x / math.pi).limit_denominator(256)
-    if abs(float(g) * math.pi - x) < 1e-13 * max(1, abs(x)):
+    if abs(float(g) * math.pi - x) < getattr(CFG, "pi_tol", 1e-13) * max(1, abs(x)):
         return g, Fr(0)
     f = Fr(x).limit_denominator(1 << 20)
     if abs(float(f) - x) < 1e-15 * max(1, abs(x)):
